@@ -141,6 +141,19 @@ func solveAll(results []*FuncResult, workDir string, quickSec, fullSec int, all 
 				h := sha256.Sum256([]byte(j.o.Name))
 				file := filepath.Join(workDir, fmt.Sprintf("%x.smt2", h[:8]))
 				j.o.File = file
+				if false && !all && byteFree(j.o) {
+					// stage 1 for goals that do not mention byte contents: leave out the quantified byte-level facts and axioms
+					// (sound: fewer assumptions); a complete attempt follows when this one is not decisive
+					lq := j.r.queryMode(j.o, false, true)
+					lfile := filepath.Join(workDir, fmt.Sprintf("%x.nobytes.smt2", h[:8]))
+					os.WriteFile(lfile, []byte(lq), 0o644)
+					lr := runSolver(solvers[0], lfile, 5)
+					os.Remove(lfile)
+					if lr.result == "unsat" {
+						j.o.Result, j.o.Backend, j.o.Secs = "unsat", lr.solver+"(no-bytes)", lr.secs
+						continue
+					}
+				}
 				j.r.mu.Lock()
 				q := j.r.query(j.o, true)
 				j.r.mu.Unlock()
